@@ -16,7 +16,9 @@ func writeRec(c *Ctx, d Doc, fl Flags, tracks int, alsoSingle bool, extra ...str
 		"ok":   r.Exit == 0 && !r.TimedOut && !r.Panic && f.Err == "" && len(r.Stdout) > 0,
 		"exit": r.Exit, "terminated": !r.TimedOut, "stdoutLen": len(r.Stdout), "stderrLen": len(r.Stderr),
 		"division": f.Division, "ntracks": f.NTracks, "ev": eventsOf(f), "smfErr": f.Err,
-		"ok1": true, "ev1": [][]any{}}
+		"ok1": true, "ev1": [][]any{},
+		// a clean refusal: a message, a non-zero status, no output
+		"refused": r.Exit > 0 && !r.TimedOut && !r.Panic && len(r.Stdout) == 0 && len(r.Stderr) > 0}
 	if alsoSingle {
 		args1 := append([]string{"write", "--track", "1"}, fl.Args()...)
 		r1 := c.crd(args1, d.YAML())
@@ -27,11 +29,26 @@ func writeRec(c *Ctx, d Doc, fl Flags, tracks int, alsoSingle bool, extra ...str
 	return rec
 }
 
+// absurdRec: one instance of `digits` beats (far beyond anything a delta time can hold) between two ordinary chords
+func absurdRec(c *Ctx, digits string, rest bool, tracks int) Rec {
+	inst := "- chord: {name: MajorTriad, degree: \"1\"}\n  values: [\"" + digits + "\"]\n"
+	if rest {
+		inst = "- values: [\"" + digits + "\"]\n"
+	}
+	y := "- chord: {name: MajorTriad, degree: \"1\"}\n  values: [\"1\"]\n" + inst + "- chord: {name: MajorTriad, degree: \"5\"}\n  values: [\"1\"]\n"
+	r := c.crd([]string{"write", "--track", fmt.Sprint(tracks)}, []byte(y))
+	return Rec{"kind": "absurd", "sub": fmt.Sprint(digits, rest, tracks), "digits": chars(digits), "rest": rest, "tracks": tracks, "exit": r.Exit, "stdoutLen": len(r.Stdout), "stderrLen": len(r.Stderr),
+		"refused": r.Exit > 0 && !r.TimedOut && !r.Panic && len(r.Stdout) == 0 && len(r.Stderr) > 0}
+}
+
 func writeExec(alsoSingle bool) func(c *Ctx, k Case) []Rec {
 	return func(c *Ctx, k Case) []Rec {
 		tr := ci(k, "tracks")
 		if tr == 0 {
 			tr = 1
+		}
+		if dg := cs(k, "absurd"); dg != "" {
+			return []Rec{absurdRec(c, dg, cb(k, "rest"), tr)}
 		}
 		if cb(k, "debug") {
 			return []Rec{writeRec(c, caseToDoc(k["doc"]), caseToFlags(k["flags"]), tr, alsoSingle, "--debug")}
@@ -159,6 +176,23 @@ func init() {
 					{Deg: "1", Sym: "", Vals: []Frac{{1, 1}}, Mrk: "m"}, {Rest: true, Vals: []Frac{{1, 3}}}, {Deg: "4", Sym: "", Vals: []Frac{{1, 1}}, Txt: " "}}, "flags": Flags{}},
 				Case{"doc": Doc{ch(Frac{1, 1}), {Rest: true, Vals: []Frac{{1, 1}}}, {Deg: "5", Sym: "", Vals: []Frac{{1, 1}}, Lic: "la"}, {Rest: true, Vals: []Frac{{1, 2}}},
 					{Deg: "1", Sym: "", Vals: []Frac{{1, 1}}, Mrk: "m"}}, "flags": Flags{}, "tracks": 3})
+			// at and beyond the limit of the file format (a delta time holds 2^28 - 1 ticks = 279,620.27 beats): the piece is
+			// written right or refused, never written wrong
+			cases = append(cases,
+				Case{"doc": Doc{ch(Frac{279620, 1})}, "flags": Flags{}},
+				Case{"doc": Doc{ch(Frac{279619, 1})}, "flags": Flags{}, "tracks": 2},
+				Case{"doc": Doc{ch(Frac{279621, 1})}, "flags": Flags{}},
+				Case{"doc": Doc{ch(Frac{1, 1}), ch(Frac{300000, 1}), ch(Frac{1, 1})}, "flags": Flags{}},
+				Case{"doc": Doc{ch(Frac{1, 1}), rs(Frac{300000, 1}), ch(Frac{1, 1})}, "flags": Flags{}},
+				Case{"doc": Doc{ch(Frac{1, 1}), rs(Frac{2000000, 1})}, "flags": Flags{}},
+				Case{"doc": Doc{ch(Frac{100000, 1}), ch(Frac{100000, 1}), ch(Frac{79621, 1})}, "flags": Flags{}},
+				Case{"doc": Doc{ch(Frac{100000, 1}), ch(Frac{100000, 1}), ch(Frac{79621, 1})}, "flags": Flags{}, "tracks": 2},
+				Case{"doc": Doc{ch(Frac{100000, 1}), rs(Frac{100000, 1}), ch(Frac{100000, 1}), rs(Frac{200000, 1}), rs(Frac{200000, 3}), ch(Frac{1, 1})}, "flags": Flags{}, "tracks": 4},
+				Case{"doc": Doc{rs(Frac{150000, 1}), rs(Frac{150000, 1}), ch(Frac{1, 1})}, "flags": Flags{}},
+				Case{"doc": Doc{ch(Frac{1, 1}), rs(Frac{150000, 1}), rs(Frac{150000, 1})}, "flags": Flags{}})
+			for _, dg := range []string{"4473924", "4473925", "4473926", "5000000", "8947849", "10000000", "44739243", "100000000000", "18446744073709551616", "99999999999999999999999999"} {
+				cases = append(cases, Case{"absurd": dg, "rest": false}, Case{"absurd": dg, "rest": true, "tracks": 2})
+			}
 			// close to the limit of the property (total below 2^28 ticks = 279,620 beats)
 			cases = append(cases,
 				Case{"doc": Doc{ch(Frac{100000, 1}), rs(Frac{150000, 1}), ch(Frac{1, 3})}, "flags": Flags{}},
@@ -193,6 +227,9 @@ func init() {
 			if tr == 0 {
 				tr = 1
 			}
+			if dg := cs(k, "absurd"); dg != "" {
+				return []Rec{absurdRec(c, dg, cb(k, "rest"), tr)}
+			}
 			return []Rec{writeRec(c, caseToDoc(k["doc"]), caseToFlags(k["flags"]), tr, tr > 1)}
 		},
 	})
@@ -223,6 +260,16 @@ func init() {
 				docs = append(docs, randomDoc(rng, o))
 			}
 			cases := []Case{}
+			// at and beyond the limit of the file format: an idle track's end-of-track delta is the length of the whole piece, so
+			// a piece no single note of which is long may still be unwritable on several tracks (written right or refused)
+			chd := func(deg string, n int) Inst { return Inst{Deg: deg, Sym: "", Vals: []Frac{{n, 1}}} }
+			for _, n := range []int{2, 3, 6} {
+				cases = append(cases,
+					Case{"doc": Doc{chd("1", 100000), chd("4", 100000), chd("5", 79621)}, "flags": Flags{}, "tracks": n},
+					Case{"doc": Doc{chd("1", 100000), chd("4", 100000), chd("5", 79618)}, "flags": Flags{}, "tracks": n},
+					Case{"doc": Doc{chd("1", 100000), {Rest: true, Vals: []Frac{{100000, 1}}, BPM: 90}, chd("5", 100000), {Rest: true, Vals: []Frac{{250000, 1}}}, chd("1", 1)}, "flags": Flags{}, "tracks": n},
+					Case{"absurd": "4473925", "rest": n == 3, "tracks": n})
+			}
 			// more tracks than any worker pool or block size a writer might use
 			for _, n := range []int{1027, 2050} {
 				cases = append(cases, Case{"doc": docs[1], "flags": Flags{}, "tracks": n}, Case{"doc": docs[3], "flags": Flags{}, "tracks": n})
